@@ -24,6 +24,7 @@ def run(chk, rng, replay=None):
     seeds = [replay["seed"]] if replay is not None and "seed" in replay else [int(rng.integers(1 << 30)) for _ in range(want)]
     reqs, keep = [], []
     scales = {}
+    moved = 0
     for sd in seeds:
         r = np.random.default_rng(sd)
         n = int(r.integers(1, 5 if chk.tier == "thorough" else 4))
@@ -38,6 +39,18 @@ def run(chk, rng, replay=None):
         t = 2.0 ** int(r.choice([0, 0, -10, -20, -30, 10]))
         I.xpt[...] = I.xpt * t
         scales[t] = scales.get(t, 0) + 1
+        if r.random() < 0.5:
+            # the solver moves points in place between two uses of the interpolation system: factorise this set, then
+            # replace one point (by a move of the size of the set) before asking for the ratios
+            import cobyqa.models as M
+            M.build_system(I)
+            kk = int(r.integers(npt))
+            old_col = np.copy(I.xpt[:, kk])
+            I.xpt[:, kk] = t * np.array([algrun.dy(r, -2, 2) for _ in range(n)])
+            if exact.inverse(exact.kkt(algrun.xpt_rows(models))) is None or not algrun.cond_of_fresh(models) <= 1e6:
+                I.xpt[:, kk] = old_col
+            else:
+                moved += 1
         X = algrun.xpt_rows(models)
         Winv = exact.inverse(exact.kkt(X))
         if Winv is None:
@@ -55,7 +68,7 @@ def run(chk, rng, replay=None):
         X2 = [row[:] for row in X]
         X2[k] = off
         brute = exact.det(exact.kkt(X2)) / exact.det(exact.kkt(X))
-        keep.append({"seed": sd, "n": n, "npt": npt, "k": k, "one": s_one, "all": s_all, "cond": algrun.cond_of(models), "brute": brute})
+        keep.append({"seed": sd, "n": n, "npt": npt, "k": k, "one": s_one, "all": s_all, "cond": algrun.cond_of_fresh(models), "brute": brute})
     answers = exact.driver_alg(reqs) if reqs else []
     specfail, mism = [], []
     worst = 0.0
@@ -77,7 +90,7 @@ def run(chk, rng, replay=None):
         elif dall > tol:
             specfail.append((c, f"determinants(x_new) (all indices) differs from the exact ratios by {dall!r} (cond {c['cond']:.3g})"))
     chk.coverage.update({
-        "evaluations": len(seeds), "distinct_nontrivial": len(keep), "set_scale_factors": {str(k): v for k, v in sorted(scales.items())},
+        "evaluations": len(seeds), "distinct_nontrivial": len(keep), "sets_with_a_point_moved_after_factorisation": moved, "set_scale_factors": {str(k): v for k, v in sorted(scales.items())},
         "rule": "interpolation sets reached by 0-7 random replacements / shifts / resets from the initial set (n 1..3 quick, 1..4 thorough; every admissible nb_points; dyadic data; cond <= 1e6), candidate points within two radii, one random index and all indices at once; the exact sigma comes from the Lean model after it has verified the inverse; allowance 1e4 eps cond scale. Non-trivial = set with certified inverse.",
         "samples": [{k: v for k, v in keep[-1].items() if k in ("seed", "n", "npt", "k", "one", "cond")}] if keep else [],
         "ratios_compared": sum(1 + len(c["all"]) for c in keep), "worst_error_over_eps_cond_scale": worst,
